@@ -378,16 +378,31 @@ func genHist(r *rand.Rand, prim, id, maxSteps int) nHist {
 			h.Steps = append(h.Steps, nStep{Op: op, A: a})
 		}
 		if terminal {
+			// choose the kind of terminal step first, then drive the mutex into the state it needs
 			a := r.Intn(2)
-			var ops []int
-			if w[a] {
-				ops = []int{0, 2, 3} // Lock / RLock while write-locked; RUnlock while write-locked
-			} else if rd[a] > 0 {
-				ops = []int{0, 1} // Lock while readers hold; Unlock while only read-locked
-			} else {
-				ops = []int{1, 3} // Unlock / RUnlock of an unlocked RWMutex
+			kinds := []struct {
+				need string // "W" write-locked, "R" read-locked, "F" free
+				op   int
+			}{{"W", 0}, {"W", 2}, {"W", 3}, {"R", 0}, {"R", 1}, {"F", 1}, {"F", 3}}
+			k := kinds[r.Intn(len(kinds))]
+			if w[a] && k.need != "W" {
+				h.Steps = append(h.Steps, nStep{Op: 1, A: a})
+				w[a] = false
 			}
-			h.Steps = append(h.Steps, nStep{Op: ops[r.Intn(len(ops))], A: a, JS: true})
+			if rd[a] > 0 && k.need != "R" {
+				for ; rd[a] > 0; rd[a]-- {
+					h.Steps = append(h.Steps, nStep{Op: 3, A: a})
+				}
+			}
+			if k.need == "W" && !w[a] {
+				h.Steps = append(h.Steps, nStep{Op: 0, A: a})
+			}
+			if k.need == "R" && rd[a] == 0 {
+				for i := 1 + r.Intn(3); i > 0; i-- {
+					h.Steps = append(h.Steps, nStep{Op: 2, A: a})
+				}
+			}
+			h.Steps = append(h.Steps, nStep{Op: k.op, A: a, JS: true})
 		}
 	case pWaitGroup:
 		cnt := 0
@@ -435,8 +450,8 @@ func genHist(r *rand.Rand, prim, id, maxSteps int) nHist {
 			h.Steps = append(h.Steps, nStep{Op: op, A: 1 + r.Intn(9)})
 		}
 		if terminal && r.Intn(2) == 0 {
-			// recursive Do: deadlocks under sync. Only meaningful as the FIRST Do; otherwise a no-op in both.
-			if r.Intn(2) == 0 {
+			// recursive Do: deadlocks under sync. As the FIRST Do it must panic under nosync; later it is a no-op.
+			if r.Intn(3) != 0 {
 				h.Steps = []nStep{{Op: 2, A: 1, JS: true}}
 			} else {
 				h.Steps = append(h.Steps, nStep{Op: 2, A: 1, JS: true})
@@ -446,6 +461,9 @@ func genHist(r *rand.Rand, prim, id, maxSteps int) nHist {
 		for i := 0; i < n; i++ {
 			k := r.Intn(nKeys)
 			op := r.Intn(12)
+			if op < 10 && r.Intn(25) == 0 {
+				k = nKeys // the unhashable key: both worlds panic with the runtime's error
+			}
 			switch {
 			case op < 3:
 				h.Steps = append(h.Steps, nStep{Op: 0, A: k})
